@@ -120,7 +120,7 @@ func generate(o *Options) *runResult {
 	for _, sw := range specs.Sweeps {
 		if hasProp(sw.Props, o.Prop) && (o.Only == "" || strings.Contains("sweep "+sw.Kind, o.Only)) {
 			sweeps = append(sweeps, sw)
-			if sw.Kind == "embeds" {
+			if sw.Kind == "embeds" || sw.Kind == "jsontags" {
 				pkgSet[sw.PkgPath] = true
 				continue
 			}
